@@ -27,6 +27,8 @@ ALLDS = ('%{cgroup:name=systemd}%{cwd}%{datetime}%{domain}%{egid}%{egroup}%{env_
          '%{snoopy_configure_command}%{snoopy_version}%{systemd_unit_name}%{tid_kernel}%{timestamp}%{timestamp_ms}%{timestamp_us}%{tty}%{tty_uid}%{tty_username}%{uid}')
 # every data source and every filter on the path (races in rarely used sources); the extra sources sit in a 2nd record field group that the oracle ignores
 CFG_ALLDS = '[snoopy]\nmessage_format = ' + FMT + '|' + ALLDS.replace('|', '') + '\nfilter_chain = exclude_spawns_of:zz;exclude_uid:5;only_root;only_tty;only_uid:0;noop\noutput = file:@W@/log\n'
+# a date format whose expansion does not fit the data source's buffer (its error path) next to an ordinary one: both run under the library's libc guard
+CFG_DTLONG = '[snoopy]\nmessage_format = ' + FMT + '|%{datetime:' + 'p' * 78 + '%Y}%{datetime}\nfilter_chain = only_uid:0;noop\noutput = file:@W@/log\n'
 CFG_STDOUT = '[snoopy]\nmessage_format = ' + FMT + '\nfilter_chain = only_uid:0;noop\noutput = stdout\n'
 CFG_SOCKABSENT = '[snoopy]\nmessage_format = ' + FMT + '\nfilter_chain = only_uid:0;noop\noutput = socket:@W@/nosock\n'
 CFG_STDERR = '[snoopy]\nmessage_format = ' + FMT + '\nfilter_chain = only_uid:0;noop\noutput = stderr\n'
@@ -196,6 +198,7 @@ def run(ck):
         ('tsan-drop-2x1', vt, 'tsan', False, CFG_DROP, 2, 1, 1, True),
         ('tsan-allds-2x1', vt, 'tsan', False, CFG_ALLDS, 2, 1, 1 if q else 2, False),
         # ... with stdin on a terminal (the terminal-dependent sources - tty, tty_uid, ipaddr: the utmp search - take their full path)
+        ('asan-datetime-error-path-2x1', va, 'asan', False, CFG_DTLONG, 2, 1, 1, False),
         ('asan-allds-stdin-tty-2x1', va, 'asan', False, (CFG_ALLDS, {'VS_STDIN_PTY': '1'}), 2, 1, 1, False),
         # state-hashed passes: NO preemption bound; alternatives pruned on (thread positions, mutex model, registry list) - see engine/sched.py
         ('hashed-asan-2x1', va, 'asan', False, CFG_LOG, 2, 1, 'hashed', False),
